@@ -262,6 +262,17 @@ class Run:
 
     def finish(self, audit: dict, violations: list[tuple[str, bool]]) -> int:
         """violations: list of (replay_path, failing_input_found)."""
+        # witnesses of repaired defects listed for this property (known_findings.json, status=fixed) are replayed on every run:
+        # a reproduction is a violation like any other (a fixed entry suppresses nothing)
+        try:
+            import fixedwit
+            ids = [f["id"] for f in load_findings() if f.get("property") == self.prop and f.get("status") == "fixed"
+                   and str(f.get("witness", "")).startswith("corpus/fixed.json#")]
+            violations = list(violations) + fixedwit.replay_fixed(self, ids)
+        except CheckError:
+            raise
+        except Exception as e:  # noqa: BLE001
+            raise CheckError(f"replay of the fixed-defect witnesses failed: {type(e).__name__}: {e}")
         n_obl = len(self.theorems) + len(self.obligations)
         n_dis = sum(1 for t in self.theorems if t in audit.get("axioms", {}) and t not in audit.get("bad_axioms", {})) \
             + sum(1 for _, ok, _ in self.obligations if ok)
